@@ -43,6 +43,7 @@ func runC14(c *Ctx) {
 	hookAfterWalk(c, "C14.N3-count-is-this-syncs-blocks")
 	// …counted by the one handler of that publisher (a second handler overwrites and deletes the count hook)
 	handlerExpiryRefreshed(c, "C14.N3-one-handler-per-publisher")
+	handlerLookupCreateAtomic(c, "C14.N3-handler-created-once")
 	c.Floor("C14.N3-count-is-this-syncs-blocks", 1)
 
 	// ---- N1b registration is a handshake: the add/remove channels are unbuffered, so OnSyncFinished returns only
@@ -69,6 +70,36 @@ func runC14(c *Ctx) {
 		})
 	}
 	c.Floor("C14.N1-registration-handshake", 1)
+	// what is queued for a listener is the listener's: inside the package the output side of a listener queue is only
+	// handed out, never received from (draining it on cancel swallows notifications that were already queued)
+	nOut := 0
+	for _, f := range c.Funcs(dagsyncPkg) {
+		instrsDeep(f.SSA, func(g *ssa.Function, in ssa.Instruction) {
+			var chans []ssa.Value
+			switch in := in.(type) {
+			case *ssa.UnOp:
+				if in.Op == token.ARROW {
+					chans = append(chans, in.X)
+				}
+			case *ssa.Select:
+				for _, st := range in.States {
+					if st.Send == nil {
+						chans = append(chans, st.Chan)
+					}
+				}
+			}
+			for _, ch := range chans {
+				if _, m := Match(CallLike([]string{"chanqueue.ChanQueue[", ").Out["}), c.E(ch)); m {
+					nOut++
+					c.Bad("C14.N6-queued-notifications-kept", c.short(topFunc(g).String())+" › receives from a listener queue", in.Pos(), "the package itself receives from the output side of a listener's queue: notifications already queued for that listener are consumed by the library instead of being delivered")
+				}
+			}
+		})
+	}
+	if nOut == 0 {
+		c.OK("C14.N6-queued-notifications-kept", "dagsync › listener queue outputs", token.NoPos, "no receive from a listener queue's output inside the package (it is only returned to the listener)")
+	}
+	c.Floor("C14.N6-queued-notifications-kept", 1)
 
 	// ---- N2/N3/N5 senders -----------------------------------------------------------------------
 	var sendFns []*ssa.Function
